@@ -290,6 +290,11 @@ thread_local! {
     static IN_GUARD: RefCell<bool> = const { RefCell::new(false) };
 }
 
+/// the record of the panic most recently caught on this thread inside a guard (for checks that catch panics themselves)
+pub fn last_panic() -> Option<PanicRec> {
+    LAST.with(|l| l.borrow().clone())
+}
+
 pub fn take_other_thread_panics() -> Vec<PanicRec> {
     std::mem::take(&mut *OTHER.lock().unwrap_or_else(|e| e.into_inner()))
 }
